@@ -22,7 +22,7 @@ import (
 )
 
 func checkNilInt(w *World, r *Report, tm *Terms) {
-	r.Rule("NIL-INT", "math.Int values read from maps without comma-ok are read under keys that are present", 3)
+	r.Rule("NIL-INT", "math.Int values read from maps without comma-ok are read under keys that are present", 1)
 	tree := w.reachableFrom(w.beginBlockFn())
 	recType := func(t *Term) string { // the record type under field<Bidder>(…)
 		name := ""
